@@ -31,6 +31,8 @@ CONSTANTS Mode,        \* "rotate": (key length, fingerprint) is a function of (
                        \*           for the empty and the all-attributes messages; "product": every combination
           Variants,    \* subset of 0..5: value/length variant of every attribute
           KeyLens,     \* sequence of key lengths (0 = no key)
+          AddrMode,    \* "on": the address-class cases (every address attribute x address class x port class) are part
+                       \* of the case table; "off": only the six value variants
           TamperMode,  \* which cases get single-bit tampering at design level: "none" | "singles" | "all"
           TamperVariants,    \* variants that are tampered
           TamperAllVariants, \* in mode "singles": variants of the all-attributes messages that are tampered too
@@ -266,13 +268,38 @@ DataLen(v)  == <<0, 1, 2, 3, 17, 32>>[v + 1]
 NonceLen(v) == <<5, 0, 1, 2, 3, 4>>[v + 1]
 Ip4(n, v) == <<192, 0, 2, Idx(n) + v>>
 Ip6(n, v) == <<32, 1, 13, 184, 255, 254, 128, 0, 0, 0, 0, 0, 0, v, 200 + v, Idx(n)>>
+\* Address classes of every address-valued attribute (RFC 5389 15.1/15.2: family 0x01 = 4 bytes, 0x02 = 16 bytes;
+\* an IPv6 address is an IPv6 address whatever it embeds): the IPv4 corner values, and for IPv6 the unspecified and
+\* loopback address, the forms that embed an IPv4 address (v4-mapped ::ffff:a.b.c.d, v4-compatible ::a.b.c.d, NAT64
+\* 64:ff9b::a.b.c.d), link-local without and with a scope id (the scope id is not part of the 16 bytes: a STUN
+\* attribute cannot carry it, the round trip is modulo scope), a global address, all ones.
+Z(n) == [i \in 1..n |-> 0]
+AddrClasses == <<
+    <<0, 0, 0, 0>>, <<127, 0, 0, 1>>, <<192, 0, 2, 1>>, <<255, 255, 255, 255>>,
+    Z(16), Z(15) \o <<1>>, Z(10) \o <<255, 255, 192, 0, 2, 1>>, Z(12) \o <<192, 0, 2, 1>>,
+    <<0, 100, 255, 155>> \o Z(8) \o <<192, 0, 2, 1>>, <<254, 128>> \o Z(13) \o <<1>>, <<254, 128>> \o Z(13) \o <<1>>,
+    <<32, 1, 13, 184>> \o Z(11) \o <<1>>, [i \in 1..16 |-> 255] >>
+ScopedClass == 11                                 \* the second fe80::1 is set with a scope id
+\* ports: 0 (the library's "attribute not set": addAddress() writes nothing), 1, 0x2112 (XOR-ed with the top half of
+\* the magic cookie it is 0 on the wire), 65535
+PortClasses == <<0, 1, 8466, 65535>>
+NAC == Len(AddrClasses)
+NPC == Len(PortClasses)
 ErrCodes == <<300, 401, 420, 437, 438, 699>>
 Types == <<1, 257, 273, 3, 17, 260>>
 IdOf(v) == [i \in 1..12 |-> (i * 21 + v * 40 + 7) % 256]
 
-AttrOf(n, v) ==
-    LET k == Kind[n] IN
-    CASE k \in {"addr", "xaddr"} ->
+\* in an address-class case (ac > 0) a lone address attribute gets class ac / port class pc, several rotate from there
+ClassFor(n, cs) == IF Cardinality(cs.sub) = 1 THEN cs.ac ELSE ((cs.ac + Idx(n)) % NAC) + 1
+PortFor(n, cs)  == IF Cardinality(cs.sub) = 1 THEN cs.pc ELSE ((cs.pc + Idx(n)) % NPC) + 1
+
+AttrOf(n, cs) ==
+    LET k == Kind[n]
+        v == cs.v
+    IN
+    CASE k \in {"addr", "xaddr"} /\ cs.ac > 0 ->
+            [n |-> n, b |-> AddrClasses[ClassFor(n, cs)], x |-> PortClasses[PortFor(n, cs)]]
+      [] k \in {"addr", "xaddr"} ->
             [n |-> n, b |-> IF (v + Idx(n)) % 2 = 0 THEN Ip4(n, v) ELSE Ip6(n, v), x |-> 1024 + 4099 * v + Idx(n)]
       [] k = "u32"  -> [n |-> n, b |-> IF v = 5 THEN <<255, 255, 255, 255>> ELSE <<110 + 20 * v + Idx(n), v, 255, 254 - v>>, x |-> 0]
       [] k = "u16p" -> [n |-> n, b |-> <<64 + v, 255 - v>>, x |-> 0]
@@ -284,12 +311,19 @@ AttrOf(n, v) ==
       [] n = "Nonce" -> [n |-> n, b |-> [i \in 1..NonceLen(v) |-> 48 + ((i + v) % 10)], x |-> 0]
       [] OTHER      -> [n |-> n, b |-> Str(StrLen(n, v)), x |-> 0]      \* Realm, Software, Username (UTF-8)
 
+\* what the application sets (MsgSet) and the message that is thereby built (Msg): an address attribute with port 0
+\* is "not set" for the library and is not part of the message
+Carried(a) == ~(Kind[a.n] \in {"addr", "xaddr"} /\ a.x = 0)
 RECURSIVE AttrsOf(_, _, _)
-AttrsOf(sub, v, i) ==
+AttrsOf(cs, i, all) ==
     IF i > Len(AttrOrder) THEN <<>>
-    ELSE (IF AttrOrder[i] \in sub THEN <<AttrOf(AttrOrder[i], v)>> ELSE <<>>) \o AttrsOf(sub, v, i + 1)
+    ELSE (IF AttrOrder[i] \in cs.sub /\ (all \/ Carried(AttrOf(AttrOrder[i], cs))) THEN <<AttrOf(AttrOrder[i], cs)>> ELSE <<>>)
+         \o AttrsOf(cs, i + 1, all)
 
-Msg(cs) == [type |-> Types[cs.v + 1], id |-> IdOf(cs.v), a |-> AttrsOf(cs.sub, cs.v, 1)]
+Msg(cs)    == [type |-> Types[cs.v + 1], id |-> IdOf(cs.v), a |-> AttrsOf(cs, 1, FALSE)]
+MsgSet(cs) == [type |-> Types[cs.v + 1], id |-> IdOf(cs.v), a |-> AttrsOf(cs, 1, TRUE)]
+Scoped(cs) == [i \in 1..Len(MsgSet(cs).a) |-> cs.ac > 0 /\ Kind[MsgSet(cs).a[i].n] \in {"addr", "xaddr"}
+                                               /\ ClassFor(MsgSet(cs).a[i].n, cs) = ScopedClass]
 KeyOf(cs) == IF cs.klen = 0 THEN "" ELSE "k"
 Wire(cs) == Enc(Msg(cs), KeyOf(cs), cs.fp)
 NoWire == [c |-> <<>>, mit |-> <<>>, fpt |-> <<>>, mi |-> 0, fp |-> 0]
@@ -298,15 +332,27 @@ KeyLensAll == <<0, 1, 20, 63, 64, 65, 128, 300>>       \* cfg: KeyLens <- KeyLen
 NK == Len(KeyLens)
 KeySet == {KeyLens[i] : i \in 1..NK}
 Rot(sub, v) == (SumIdx(sub) + 3 * v) % (2 * NK)
+AddrAttrs == {n \in AttrNames : Kind[n] \in {"addr", "xaddr"}}
+AddrSubs  == {{n} : n \in AddrAttrs} \cup {AddrAttrs}
+\* address-class cases: each address attribute alone and all seven together x address class x port class; the
+\* variant (message type, transaction id = XOR pad) follows from the classes, the key length does not matter
+\* (none / 20 bytes), fingerprint on/off
+AddrCases ==
+    IF AddrMode # "on" THEN {}
+    ELSE {cs \in [sub : AddrSubs, v : Variants, klen : {0, 20}, fp : BOOLEAN, ac : 1..NAC, pc : 1..NPC] :
+            cs.v = (cs.ac + cs.pc) % 6}
 Cases ==
-    {[sub |-> s, v |-> v, klen |-> kl, fp |-> f] : s \in Subs, v \in Variants, kl \in KeySet, f \in BOOLEAN}
+    {[sub |-> s, v |-> v, klen |-> kl, fp |-> f, ac |-> 0, pc |-> 0] : s \in Subs, v \in Variants, kl \in KeySet, f \in BOOLEAN}
+    \cup AddrCases
 InSpace(cs) ==
     \/ Mode = "product"
-    \/ cs.sub \in {{}, AllCg, AllCd}
-    \/ LET r == Rot(cs.sub, cs.v) IN cs.klen = KeyLens[(r % NK) + 1] /\ cs.fp = (r >= NK)
+    \/ cs.ac = 0 /\ cs.sub \in {{}, AllCg, AllCd}
+    \/ cs.ac = 0 /\ LET r == Rot(cs.sub, cs.v) IN cs.klen = KeyLens[(r % NK) + 1] /\ cs.fp = (r >= NK)
+    \/ cs.ac > 0 /\ LET r == (cs.ac + 2 * cs.pc + SumIdx(cs.sub)) % 4 IN cs.klen = (IF r % 2 = 0 THEN 0 ELSE 20) /\ cs.fp = (r >= 2)
 
 Tamperable(cs) ==
     /\ cs.klen \in {0, 20}      \* the key length is immaterial for the symbolic HMAC
+    /\ cs.ac = 0
     /\ cs.v \in TamperVariants
     /\ CASE TamperMode = "none"    -> FALSE
          [] TamperMode = "singles" -> cs.sub \in Singles \cup {{}} \/ (cs.sub \in {AllCg, AllCd} /\ cs.v \in TamperAllVariants)
@@ -318,13 +364,13 @@ Tamperable(cs) ==
 NoQ == [a |-> "none"]
 NoFrame == [st |-> "bad", mi |-> 0, fp |-> 0]
 NoRes == [dec |-> [ok |-> "none"], fr |-> NoFrame]
-Helper == [sub |-> {}, v |-> 0, klen |-> 0, fp |-> FALSE, helper |-> TRUE]
-AsCase(cs) == [sub |-> cs.sub, v |-> cs.v, klen |-> cs.klen, fp |-> cs.fp, helper |-> FALSE]
+Helper == [sub |-> {}, v |-> 0, klen |-> 0, fp |-> FALSE, ac |-> 0, pc |-> 0, helper |-> TRUE]
+AsCase(cs) == [sub |-> cs.sub, v |-> cs.v, klen |-> cs.klen, fp |-> cs.fp, ac |-> cs.ac, pc |-> cs.pc, helper |-> FALSE]
 
 NoObs == [type |-> 0, id |-> <<>>, a |-> <<>>]
 Holdable(cs) ==
     CASE HoldMode = "none"    -> FALSE
-      [] HoldMode = "singles" -> cs.sub \notin Pairs
+      [] HoldMode = "singles" -> cs.sub \notin Pairs /\ cs.ac = 0
       [] OTHER                -> TRUE
 
 Init ==
